@@ -92,11 +92,46 @@ def make_pems():
           .add_extension(x509.SubjectKeyIdentifier.from_public_key(ee_key.public_key()), critical=False)
           .add_extension(x509.AuthorityKeyIdentifier.from_issuer_public_key(ca_key.public_key()), critical=False)
           .sign(ca_key, hashes.SHA256()))
-    return dict(
+    out = dict(
         ca=ca.public_bytes(serialization.Encoding.PEM).decode('ascii'),
         cert=ee.public_bytes(serialization.Encoding.PEM).decode('ascii'),
         key=ee_key.private_bytes(serialization.Encoding.PEM, serialization.PrivateFormat.PKCS8,
                                  serialization.NoEncryption()).decode('ascii'))
+
+    # certificates whose key is NOT bound to the security source dtn://src/
+    def other_name(eid):
+        e2 = asn1.Encoder()
+        e2.start()
+        e2.write(eid, asn1.Numbers.IA5String)
+        return x509.OtherName(x509.ObjectIdentifier('1.3.6.1.5.5.7.8.11'), e2.output())
+    ca2_key = ec.generate_private_key(ec.SECP256R1())
+    ca2_name = x509.Name([x509.NameAttribute(NameOID.COMMON_NAME, 'some other CA')])
+    variants = {
+        'other-node-id': (ca_key, ca_name, [other_name('dtn://evil/')]),
+        'no-san': (ca_key, ca_name, None),
+        'dns-san-only': (ca_key, ca_name, [x509.DNSName('src.example')]),
+        'untrusted-issuer': (ca2_key, ca2_name, [other_name(SRC)]),
+    }
+    for (serial, (vname, (iss_key, iss_name, san))) in enumerate(sorted(variants.items()), 10):
+        vkey = ec.generate_private_key(ec.SECP256R1())
+        bld = (x509.CertificateBuilder().subject_name(x509.Name([x509.NameAttribute(NameOID.COMMON_NAME, vname)]))
+               .issuer_name(iss_name).public_key(vkey.public_key()).serial_number(serial)
+               .not_valid_before(now - datetime.timedelta(days=3650)).not_valid_after(now + datetime.timedelta(days=3650))
+               .add_extension(x509.BasicConstraints(ca=False, path_length=None), critical=True)
+               .add_extension(x509.KeyUsage(True, False, False, False, False, False, False, False, False), critical=True)
+               .add_extension(x509.ExtendedKeyUsage([x509.ObjectIdentifier('1.3.6.1.5.5.7.3.35')]), critical=False)
+               .add_extension(x509.SubjectKeyIdentifier.from_public_key(vkey.public_key()), critical=False)
+               .add_extension(x509.AuthorityKeyIdentifier.from_issuer_public_key(iss_key.public_key()), critical=False))
+        if san is not None:
+            bld = bld.add_extension(x509.SubjectAlternativeName(san), critical=False)
+        vcert = bld.sign(iss_key, hashes.SHA256())
+        out['cert:' + vname] = vcert.public_bytes(serialization.Encoding.PEM).decode('ascii')
+        out['key:' + vname] = vkey.private_bytes(serialization.Encoding.PEM, serialization.PrivateFormat.PKCS8,
+                                                 serialization.NoEncryption()).decode('ascii')
+    return out
+
+
+WRONG_CERTS = ('other-node-id', 'no-san', 'dns-san-only', 'untrusted-issuer')
 
 
 def set_pems(pems):
@@ -114,9 +149,10 @@ def pki():
         _PEMS = make_pems()
     import atexit
     tmp = tempfile.mkdtemp(prefix='verif-c03-')
-    paths = dict(ca=os.path.join(tmp, 'ca.pem'), cert=os.path.join(tmp, 'cert.pem'), key=os.path.join(tmp, 'key.pem'))
-    for (name, path) in paths.items():
-        with open(path, 'w') as fobj:
+    paths = {}
+    for (idx, name) in enumerate(sorted(_PEMS)):
+        paths[name] = os.path.join(tmp, 'f%02d.pem' % idx)
+        with open(paths[name], 'w') as fobj:
             fobj.write(_PEMS[name])
     atexit.register(cleanup_pki)
     _PKI = paths
@@ -134,7 +170,7 @@ def cleanup_pki():
 # ---------------------------------------------------------------------------
 # producing protected bundles
 
-def source_protect(kind, targets):
+def source_protect(kind, targets, cert_variant=None):
     '''Run the real transmit chain of a source agent; returns the octets that
     reach its convergence layer.'''
     from bp.app.bpsec import SecAssociation, SecOperation
@@ -144,7 +180,7 @@ def source_protect(kind, targets):
     params = dict(node_id=SRC, tx_routes=[('.*', 'dtn://next/', None)])
     world = None
     if kind in ('sign1-x5chain', 'sign1-x5t'):
-        world = _bp_world_with_config(params, sign=True, include_chain=(kind == 'sign1-x5chain'))
+        world = _bp_world_with_config(params, sign=True, include_chain=(kind == 'sign1-x5chain'), cert_variant=cert_variant)
         cose = world.cose()
         # the repository's own association signs the payload; widen it to the wanted targets
         cose.sec_assoc[0].tgt_blk_types = tgt_types
@@ -169,7 +205,7 @@ def source_protect(kind, targets):
     return sent[0]
 
 
-def _bp_world_with_config(params, sign=False, include_chain=True, verify_ca=False):
+def _bp_world_with_config(params, sign=False, include_chain=True, verify_ca=False, cert_variant=None):
     '''BpWorld whose configuration names certificate / key files.'''
     import vmc.bp_world as bw
     paths = pki()
@@ -179,7 +215,8 @@ def _bp_world_with_config(params, sign=False, include_chain=True, verify_ca=Fals
     orig = bw._env.load_bp().config.Config
     extra = {}
     if sign:
-        extra.update(sign_cert_file=paths['cert'], sign_key_file=paths['key'], integrity_include_chain=include_chain)
+        (cert, key) = ('cert', 'key') if cert_variant is None else ('cert:' + cert_variant, 'key:' + cert_variant)
+        extra.update(sign_cert_file=paths[cert], sign_key_file=paths[key], integrity_include_chain=include_chain)
     if verify_ca:
         extra.update(verify_ca_file=paths['ca'])
 
@@ -346,6 +383,13 @@ def field_edits(orig):
     variant('tag-truncated', msg_edit(lambda m: m.__setitem__(len(m) - 1, m[-1][:-1]) if isinstance(m[-1], bytes) else None))
     variant('tag-extended', msg_edit(lambda m: m.__setitem__(len(m) - 1, m[-1] + b'\x00') if isinstance(m[-1], bytes) else None))
     variant('protected-bucket-emptied', msg_edit(lambda m: m.__setitem__(0, b'')))
+
+    def attach_old(b):
+        # the protected content moves into the COSE payload slot, the target block gets other octets
+        old = bytes(b['blocks'][-1]['data'])
+        msg_edit(lambda m: m.__setitem__(2, old))(b)
+        b['blocks'][-1].update(data=old[:-1] + bytes([old[-1] ^ 0x20]))
+    variant('payload-altered-old-content-attached', attach_old)
     variant('other-block-data', lambda b: [x.update(data=x['data'] + b'+') for x in b['blocks'] if x['type'] == 193])
     variant('other-block-flags', lambda b: [x.update(flags=x['flags'] ^ 0x02) for x in b['blocks'] if x['type'] == 193])
     variant('other-block-removed', lambda b: b.update(blocks=[x for x in b['blocks'] if x['type'] != 193]))
@@ -484,9 +528,54 @@ def run_source(params, known):
                 samples=samples, verdicts=counts, report_keys=['verdicts'])
 
 
+def run_wrong_cert(params, known):
+    '''"Fails when the key is wrong", asymmetric case: the signature is valid, made by the
+    holder of a certificate that does not bind the key to the security source (other NODE-ID,
+    no NODE-ID at all, other issuer).  The receiver trusts only the first CA.'''
+    from .. import env as _env
+    _env.load_bp()
+    set_pems(params['pems'])
+    name = params['name']
+    violations = []
+    verdicts = {}
+    keys = []
+    for variant in (None,) + WRONG_CERTS:
+        label = variant or 'right-certificate'
+        try:
+            data = source_protect('sign1-x5chain', [1], cert_variant=variant)
+        except RuntimeError as err:
+            verdicts['source-refuses-%s' % label] = 1
+            continue
+        (world, delivered, reasons) = verify(data, 'right', True)
+        ok = bool(delivered) == (variant is None)
+        verdicts[('accepted-' if delivered else 'rejected-') + label] = 1
+        keys.append(label)
+        if world.escaped:
+            err = world.escaped[-1]
+            v = Violation(PROP, 'integrity', 'exception-escaped-idle-callback', dict(exc=err[0], cert=label), '%s: %s' % (err[0], err[2])).as_dict()
+        elif not ok and variant is None:
+            v = Violation(PROP, 'integrity', 'unmodified-bundle-rejected', dict(cert=label), 'reasons %r, errors %r' % (reasons, world.api_errors[:1])).as_dict()
+        elif not ok:
+            v = Violation(PROP, 'integrity', 'signature-by-unbound-key-verified', dict(cert=label),
+                          'BIB with security source %s signed under a certificate "%s" was verified and the bundle delivered' % (SRC, label)).as_dict()
+        else:
+            continue
+        v['case'] = dict(source='sign1-x5chain', protected=data.hex(), altered=data.hex(), alteration='certificate %s' % label,
+                         keymode='right', with_ca=True)
+        violations.append(v)
+    kn, out_v = [], []
+    for v in violations:
+        ent = known.match(v) if known is not None else None
+        (kn if ent else out_v).append(dict(v, entry=ent) if ent else v)
+    return dict(name=name, evaluations=len(keys), nontrivial_keys=['wrong-cert:%s' % k for k in keys], violations=out_v, known=kn,
+                samples=[], verdicts=verdicts, report_keys=['verdicts'])
+
+
 def scenarios(tier):
     out = []
     pems = make_pems()
+    out.append(dict(name='sign1-wrong-certificate', kind='enum', runner='run_wrong_cert',
+                    params=dict(name='sign1-wrong-certificate', pems=pems), weight=1))
 
     def add(name, kind, targets=(1,), parts=1):
         for part in range(parts):
@@ -508,11 +597,12 @@ def scenarios(tier):
 ASSUMPTIONS = [
     'trusted base: pycose and cryptography primitives; certificate path validation by the harness stand-in for certvalidator',
     'the covered tuple (external AAD, target data, protected bucket, tag/signature, result type, context id) is computed by vmc/oracle/cose_aad.py from the independently decoded bundle',
+    'wrong key, asymmetric case: valid signatures under four certificates that do not bind the key to the security source (other NODE-ID, no SAN, DNS SAN only, issuer not trusted)',
     'alterations inside the security block that leave the covered tuple unchanged (unprotected headers, structure) may go either way; removing the integrity block altogether is not detectable without policy and is not judged',
     'bundles without block CRCs so that alterations reach the security layer (CRC behaviour is C08)',
 ]
 
-RULE = ('every single-bit flip of each protected bundle plus 18 field-level edits, for six kinds of integrity block '
+RULE = ('every single-bit flip of each protected bundle plus 19 field-level edits, for six kinds of integrity block '
         '(three produced by the real transmit chain, oracle-produced AAD scopes), each fed to a fresh verifier agent; '
         'non-trivial = the independent model gives a definite verdict (must-fail / must-verify); distinct by (source, alteration)')
 
